@@ -11,6 +11,7 @@ import (
 	"github.com/notaryproject/notation-go"
 	vr "github.com/notaryproject/notation-go/internal/zzvr"
 	"github.com/notaryproject/notation-go/verifier/trustpolicy"
+	"github.com/opencontainers/go-digest"
 	ocispec "github.com/opencontainers/image-spec/specs-go/v1"
 )
 
@@ -152,3 +153,76 @@ func (s *c03Store) GetCertificates(ctx context.Context, storeType truststoreType
 }
 
 func init() { vsymHarnesses["VsymC03"] = VsymC03 }
+
+// VsymC03Sequence: one verifier object, several verifications one after the other - under the OCI statement of
+// one repository, the OCI statement of another, and the blob statement that happens to carry the same name as
+// the first. Each is decided by the stores its own statement lists, whatever was verified before.
+func VsymC03Sequence() {
+	kitEnv = kitEnvState{}
+	kitInstallEnvelope()
+	window := func(c *x509.Certificate) *x509.Certificate {
+		c.NotBefore = time.Unix(946684800, 0)
+		c.NotAfter = time.Unix(4102444800, 0)
+		return c
+	}
+	leaf, unrelated := window(kitCert([]byte("leaf"), "leaf")), window(kitCert([]byte("unrelated"), "unrelated"))
+	// three statements, three stores; which of the stores hold the signer's certificate is arbitrary
+	stores := []string{"ca:x", "ca:y", "ca:z"}
+	holds := []bool{vr.Bool("x.holdsSigner"), vr.Bool("y.holdsSigner"), vr.Bool("z.holdsSigner")}
+	answers := map[string]kitStoreAnswer{}
+	for i, s := range stores {
+		c := unrelated
+		if holds[i] {
+			c = leaf
+		}
+		answers[s] = kitStoreAnswer{certs: []*x509.Certificate{c}}
+	}
+	store := &kitStore{answers: answers}
+	level := trustpolicy.SignatureVerification{VerificationLevel: "strict"}
+	oci := &trustpolicy.OCIDocument{Version: "1.0", TrustPolicies: []trustpolicy.OCITrustPolicy{
+		{Name: "acme", RegistryScopes: []string{"reg.io/repo"}, SignatureVerification: level, TrustStores: []string{stores[0]}, TrustedIdentities: []string{"*"}},
+		{Name: "other", RegistryScopes: []string{"reg.io/other"}, SignatureVerification: level, TrustStores: []string{stores[1]}, TrustedIdentities: []string{"*"}},
+	}}
+	blob := &trustpolicy.BlobDocument{Version: "1.0", TrustPolicies: []trustpolicy.BlobTrustPolicy{
+		{Name: "acme", SignatureVerification: level, TrustStores: []string{stores[2]}, TrustedIdentities: []string{"*"}},
+	}}
+	kitEnv.content = &signature.EnvelopeContent{
+		Payload: signature.Payload{ContentType: "application/vnd.cncf.notary.payload.v1+json", Content: vr.JSONBytes(vr.JObj("targetArtifact", vr.JObj("mediaType", vr.JStr("m"), "digest", vr.JStr("d"), "size", vr.JNum(1))))},
+		SignerInfo: signature.SignerInfo{SignedAttributes: signature.SignedAttributes{SigningScheme: signature.SigningSchemeX509, SigningTime: time.Unix(1700000000, 0)},
+			SignatureAlgorithm: signature.AlgorithmPS256, CertificateChain: []*x509.Certificate{leaf}, Signature: []byte("sig")},
+	}
+	v, err := NewVerifierWithOptions(store, VerifierOptions{OCITrustPolicy: oci, BlobTrustPolicy: blob,
+		RevocationCodeSigningValidator: &kitValidator{results: kitOKResults(1)}, RevocationTimestampingValidator: &kitValidator{}})
+	vr.Assert(err == nil, "harness: verifier")
+	if err != nil {
+		return
+	}
+	ctx := context.Background()
+	desc := ocispec.Descriptor{MediaType: "m", Digest: "d", Size: 1}
+	n := vr.Param("verifications", 3)
+	for i := 0; i < n; i++ {
+		which := vr.Choice("statement", 3)
+		store.calls = nil
+		var outcome *notation.VerificationOutcome
+		var verr error
+		switch which {
+		case 0:
+			outcome, verr = v.Verify(ctx, desc, []byte{1}, notation.VerifierVerifyOptions{ArtifactReference: "reg.io/repo@sha256:aaaaaaaaaaaaaaaaaaaaaaaaaaaaaaaaaaaaaaaaaaaaaaaaaaaaaaaaaaaaaaaa", SignatureMediaType: kitJWS})
+		case 1:
+			outcome, verr = v.Verify(ctx, desc, []byte{1}, notation.VerifierVerifyOptions{ArtifactReference: "reg.io/other@sha256:aaaaaaaaaaaaaaaaaaaaaaaaaaaaaaaaaaaaaaaaaaaaaaaaaaaaaaaaaaaaaaaa", SignatureMediaType: kitJWS})
+		default:
+			gen := func(a digest.Algorithm) (ocispec.Descriptor, error) { return desc, nil }
+			outcome, verr = v.VerifyBlob(ctx, gen, []byte{1}, notation.BlobVerifierVerifyOptions{SignatureMediaType: kitJWS, TrustPolicyName: "acme"})
+		}
+		vr.Assert((verr == nil) == holds[which], "each verification is decided by the stores of its own statement, whatever the same verifier verified before")
+		vr.Assert(outcome != nil, "an outcome is returned")
+		for _, c := range store.calls {
+			vr.Assert(c == stores[which], "only the stores listed by the statement that applies are consulted")
+		}
+		if i > 0 {
+			vr.Reach("verified after another statement")
+		}
+	}
+}
+
+func init() { vsymHarnesses["VsymC03Sequence"] = VsymC03Sequence }
